@@ -71,6 +71,26 @@ class Scenario:
                 steps = ([("sleep", when)] if when else []) + [step, tail]
                 kit.submit(self._note({"id": "sub%d-%s" % (index, context), "flavour": context,
                                        "steps": steps}))
+        for index, (context, flavour, count) in enumerate(params.get("repeat", ())):
+            desc = self._note(worker("rep%d-%s" % (index, flavour), flavour))
+            desc["_expect"] = count
+            step = ("adopt-many", desc, count)
+            if context == "outside":
+                outside_jobs.append((params.get("late_at", 0.0), step))
+            elif context == "queued":
+                kit._sync_step(desc, step)
+            else:
+                tail = ("block",) if context == "threading" else ("forever", 0.9)
+                kit.submit(self._note({"id": "subr%d-%s" % (index, context), "flavour": context,
+                                       "steps": [step, tail]}))
+        for index, (context, flavour) in enumerate(params.get("replace", ())):
+            first = self._note({"id": "short%d-%s" % (index, flavour), "flavour": flavour,
+                                "steps": []}, True)
+            second = self._note(worker("second%d-%s" % (index, flavour), flavour), True)
+            steps = [("service", first), ("sleep", 1.3), ("service-drop",), ("service", second)]
+            tail = ("block",) if context == "threading" else ("forever", 0.9)
+            kit.submit(self._note({"id": "subx%d-%s" % (index, context), "flavour": context,
+                                   "steps": steps + [tail]}))
         if params.get("shielded"):
             kit.submit(self._note({"id": "shielded", "flavour": "trio",
                                    "steps": [("forever", 0.9)],
@@ -79,11 +99,13 @@ class Scenario:
 
         def submitter():
             runtime.running.wait()
-            for when, (op, desc) in sorted(outside_jobs, key=lambda j: j[0]):
+            for when, (op, desc, *_count) in sorted(outside_jobs, key=lambda j: j[0]):
                 if when > env.now:
                     env.sleep(when - env.now)
                 if op == "adopt":
                     kit.submit(desc)
+                elif op == "adopt-many":
+                    kit._sync_step(desc, (op, desc, _count[0]))
                 else:
                     env.log("service-create", id=desc["id"])
                     keep.append(kit.service_class(desc)())
@@ -169,9 +191,15 @@ class Scenario:
             found = starts.get(ident, [])
             flavour = desc["flavour"]
             before_stop = [s for s in found if stop_seq is None or s[0] < stop_seq]
-            if len(found) > 1:
+            expect = desc.get("_expect", 1)
+            if len(found) > expect:
                 violations.append(("%s:started-twice:%s" % (label, flavour),
-                                   "%s was started %d times" % (ident, len(found))))
+                                   "%s was started %d times, submitted %d times"
+                                   % (ident, len(found), expect)))
+            if not race and 0 < len(before_stop) < expect:
+                violations.append(("%s:lost:%s" % (label, flavour),
+                                   "%s was adopted %d times but started only %d times"
+                                   % (ident, expect, len(before_stop))))
             if not race and not before_stop:
                 was_adopted = ident in adopt_calls or ident in self.services or True
                 if was_adopted:
@@ -243,6 +271,11 @@ def scenario_params(tier):
         if tier == "quick" and (ctx_a == ctx_b or fl_a != fl_b):
             continue
         out.append({"late": [(ctx_a, fl_a, "adopt", 2), (ctx_b, fl_b, "adopt", 4)]})
+    # 3b. the very same callable adopted several times; a service replaced by a new one
+    for context, flavour in itertools.product(["queued"] + CONTEXTS, FLAVOURS):
+        out.append({"repeat": [(context, flavour, 3)]})
+    for context, flavour in itertools.product(["trio", "asyncio", "threading"], FLAVOURS):
+        out.append({"replace": [(context, flavour)]})
     # 4. adopt racing with a shutdown whose cleanup window is held open
     for context, flavour in itertools.product(CONTEXTS, FLAVOURS):
         # shutdown() is called at t=1.0 and takes effect at the next poll of the service
